@@ -72,6 +72,11 @@ SPECS = {
                     'final': 'cs_final1', 'covers': [13]},
     'wrap_conc': {'name': 'wrap_conc', 'setup': 'cs_setup2', 'threads': [('cs_fill8_wrap_t1', 'cs_r_fallback'), (W, 'cs_w_store1')],
                   'final': 'cs_final2_release', 'covers': [13, 14]},
+    # --- C07: publication (M2hb)
+    'pub_fast': {'name': 'pub_fast', 'setup': 'cs_setup1_scribble', 'threads': [(W, 'cs_r_published'), (W, 'cs_w_publish1')], 'covers': []},
+    'pub_full': {'name': 'pub_full', 'setup': 'cs_setup1_scribble', 'threads': [(W, 'cs_r_published_full'), (W, 'cs_w_publish1')], 'covers': []},
+    'pub_fallback': {'name': 'pub_fallback', 'setup': 'cs_setup2_scribble', 'threads': [('cs_fill8_t1', 'cs_r_published'), (W, 'cs_w_publish1')], 'covers': []},
+    'pub_swap': {'name': 'pub_swap', 'setup': 'cs_setup1_scribble', 'threads': [(W, 'cs_r_published'), (W, 'cs_w_publish_swap')], 'covers': []},
     # --- C08: reader against writers that complete whole writes between its steps
     'wf_fast': {'name': 'wf_fast', 'setup': 'cs_setup_pool', 'threads': [(W, 'cs_r_load_only'), (W, 'cs_w_store_pool12')], 'covers': []},
     'wf_full8': {'name': 'wf_full8', 'setup': 'cs_setup_pool2', 'threads': [('cs_fill8_t1', 'cs_r_load_only'), (W, 'cs_w_store_pool12')], 'covers': []},
@@ -215,3 +220,16 @@ def c11(ctx):
     seq_run(ctx, 'c11_shutdown_ops')
     if ctx.tier != 'quick':
         seq_run(ctx, 'c11_shutdown_ops', flavor='dbg')
+
+
+@prop('C07')
+def c07(ctx):
+    import conc
+    ctx.bounds.update({'threads': 2, 'memory_model': 'SC executions judged by C11 happens-before (release/acquire/SeqCst, acquire fences, release sequences through one RMW); stale relaxed reads are NOT explored',
+                       'paths': ['fast slot (guard)', 'load_full', 'fallback with confirmed debt (8 slots held)', 'previous value returned by swap', 'destruction of the replaced value']})
+    ctx.outside += ['executions that are not sequentially consistent (store buffering / stale relaxed reads)', 'happens-before chains through a third thread (helper hand-over by a different writer)', 'address reuse']
+    names = ['pub_fast'] if ctx.tier == 'quick' else ['pub_fast', 'pub_full', 'pub_swap', 'pub_fallback']
+    for n in names:
+        s = ctx.session('rel')
+        r = conc.run_conc(s, SPECS[n], loop_bound=3, hb=True, timeout_s=900)
+        ctx.add(tag(r, flavor='rel'))
